@@ -18,6 +18,14 @@ def classify(c, ob, k, spec, spec_ret=None):
                 (o['k'] == 'link' and x[0] == o.get('q') and oc.tree_at(up0, x[0])[0] == 'w' and any(y[0] == o['p'] for y in d)))
                 for x in d):
         sig = {'class': 'copy-up-drops-xattrs'}
+    # copy-up of a directory by mkdir(2) keeps 01777 only: the set-uid / set-gid bits of the lower directory are lost
+    if d and b['ret'] != 'panic' and all(x[1] == 'mode' for x in d):
+        ok_all = True
+        for x in d:
+            got = oc.tree_at(oc.parse_ser(b.get('view')), x[0]); want = oc.tree_at(oc.parse_ser(spec), x[0]); u0 = oc.tree_at(up0, x[0]); u1 = oc.tree_at(up1, x[0])
+            if not (got and want and got[0] == 'd' and want[0] == 'd' and (want[1] & 0o6000) and got[1] == (want[1] & 0o1777) and u0 is None and u1 is not None):
+                ok_all = False
+        if ok_all: sig = {'class': 'copy-up-dir-drops-setid-bits'}
     # same defect seen through the result code: the attribute to remove was lost by the copy-up done for this very request
     if not d and o['k'] == 'removexattr' and b['ret'] == '61' and spec_ret == '' and \
             oc.tree_at(up1, o['p']) is not None and oc.tree_at(up0, o['p']) is None:
